@@ -26,6 +26,8 @@ type Op struct {
 	Seq    []Act  // Act == "seq": the API calls the handler of this ONE request performs, in order
 	Forge  string // kMal: evil | unissued | destroyed | stolen
 	Tick   int
+	Group  int // Act == "seq": 2 = letter of the pair family, 3 = of the triple family
+	Idle   int // Act == "idle": seconds handed to Session.SetIdleTimeout before the request's save
 }
 
 // Act is one API call inside a compound request (Op.Act == "seq").
@@ -59,6 +61,21 @@ var seqLetters = []Act{
 	{Name: "save"},
 }
 
+// regetLetter (store API only): the handler gives its session back (Release) and calls
+// store.Get(c) AGAIN in the same request - what a second handler or another middleware of the
+// chain does. The second Get finds what the first left behind: the id getSession keeps in the
+// request's Locals when it generated one, the request header rewritten by a save (header
+// source), the request cookie removed by Destroy/Reset, and the *Session object just released.
+var regetLetter = Act{Name: "reget"}
+
+// seqLettersFor: the calls a compound request through api is made of.
+func seqLettersFor(api string) []Act {
+	if api == "st" {
+		return append(append([]Act(nil), seqLetters...), regetLetter)
+	}
+	return seqLetters
+}
+
 func seqName(seq []Act) string {
 	parts := make([]string, len(seq))
 	for i, a := range seq {
@@ -71,6 +88,11 @@ func seqName(seq []Act) string {
 // ends the session's id (Destroy / Regenerate / Reset) and whether a write (Set, Delete, Save)
 // follows it in the same request.
 func seqClass(seq []Act) string {
+	for _, a := range seq {
+		if a.Name == "reget" {
+			return "second-get"
+		}
+	}
 	for i, a := range seq {
 		var ender string
 		switch a.Name {
@@ -96,30 +118,47 @@ func seqClass(seq []Act) string {
 	return "no-id-change"
 }
 
-// allSeqs: every sequence of exactly n letters, in letter order.
-func allSeqs(n int) [][]Act {
+// allSeqs: every sequence of exactly n of the given letters, in letter order.
+func allSeqs(n int, letters []Act) [][]Act {
 	if n == 0 {
 		return [][]Act{nil}
 	}
 	var out [][]Act
-	for _, pre := range allSeqs(n - 1) {
-		for _, a := range seqLetters {
+	for _, pre := range allSeqs(n-1, letters) {
+		for _, a := range letters {
 			out = append(out, append(append([]Act(nil), pre...), a))
 		}
 	}
 	return out
 }
 
-// buildCompound: user A's compound requests (every ordered pair and every ordered triple of
-// seqLetters, through each API). They are letters of the compound families only: the
-// full-alphabet families and the de-duplicating search keep the one-call-per-request alphabet.
+// buildCompound: user A's compound requests, through each API: every ordered pair (Group 2) and
+// every ordered triple (Group 3) of the API's letters; for the store API Group 2 also holds
+// every ordered pair of seqLetters FOLLOWED by a second store.Get (so that what the pair saved,
+// ended or left unsaved is read back by another Get of the same request). They are letters of
+// the compound families only: the full-alphabet families and the de-duplicating search keep the
+// one-call-per-request alphabet.
 func buildCompound() []Op {
 	var ops []Op
-	for _, n := range []int{2, 3} {
-		for _, api := range []string{"mw", "st"} {
-			for _, seq := range allSeqs(n) {
-				ops = append(ops, Op{Name: "A." + api + ".seq." + seqName(seq), Kind: kClient, Client: 0, API: api, Act: "seq", Seq: seq})
+	mk := func(api string, seq []Act, group int) {
+		ops = append(ops, Op{Name: "A." + api + ".seq." + seqName(seq), Kind: kClient, Client: 0, API: api, Act: "seq", Seq: seq, Group: group})
+	}
+	for _, api := range []string{"mw", "st"} {
+		for _, seq := range allSeqs(2, seqLettersFor(api)) {
+			mk(api, seq, 2)
+		}
+		if api == "st" {
+			for _, seq := range allSeqs(2, seqLetters) {
+				mk(api, append(append([]Act(nil), seq...), regetLetter), 2)
 			}
+		}
+	}
+	for _, api := range []string{"mw", "st"} {
+		for _, seq := range allSeqs(3, seqLettersFor(api)) {
+			if api == "st" && seq[2].Name == "reget" && seq[0].Name != "reget" && seq[1].Name != "reget" {
+				continue // already in Group 2
+			}
+			mk(api, seq, 3)
 		}
 	}
 	return ops
@@ -196,9 +235,35 @@ func buildAlphabet() []Op {
 	return ops
 }
 
+// buildExtra: letters of the small dedicated families (kept out of fullAlphabet()/BFS like the
+// compound ones).
+//
+//   - per-session idle timeout: Session.SetIdleTimeout(n) before the request's save, n below (5 s)
+//     and above (15 s) the configured IdleTimeout (10 s), through both APIs. The value lives in a
+//     field of the pooled *Session; every other session must keep the configured timeout.
+//   - operations on a session obtained by store.GetByID (no request context behind it): Destroy,
+//     Regenerate+Save, Reset+Save, Delete(key)+Save - what an administrator or a background job
+//     does to somebody's session.
+func buildExtra() []Op {
+	var ops []Op
+	for _, n := range []int{5, 15} {
+		ops = append(ops,
+			Op{Name: fmt.Sprintf("A.st.idle%d.k1.v1", n), Kind: kClient, Client: 0, API: "st", Act: "idle", K: "k1", V: "v1", Idle: n},
+			Op{Name: fmt.Sprintf("A.mw.idle%d", n), Kind: kClient, Client: 0, API: "mw", Act: "idle", Idle: n})
+	}
+	for _, act := range []string{"getbyiddestroy", "getbyidregen", "getbyidreset", "getbyiddel"} {
+		o := Op{Name: "adm." + act + ".A", Kind: kAdmin, API: "adm", Act: act, Client: 0}
+		if act == "getbyiddel" {
+			o.K = "k1"
+		}
+		ops = append(ops, o)
+	}
+	return ops
+}
+
 var (
 	baseAlphabet = buildAlphabet()
-	alphabet     = append(append([]Op(nil), baseAlphabet...), buildCompound()...)
+	alphabet     = append(append(append([]Op(nil), baseAlphabet...), buildCompound()...), buildExtra()...)
 )
 
 // Family is one exhaustive enumeration: every history of at most Depth letters of Ops.
@@ -282,20 +347,23 @@ func timingOps() []int {
 
 // contextOps: the one-call requests around a compound request - A and B create and read
 // sessions through either API, M arrives without a valid id (fresh session) or with A's /
-// the ended one, an administrator reads A's session by id.
+// the ended one, an administrator reads A's session by id, 7 s pass (two of them end every
+// session by either timeout).
 func contextOps() []int {
 	return names(
 		"A.mw.set.k1.v1", "A.st.set.k1.v1", "A.mw.get", "A.st.get",
 		"B.mw.set.k1.v2", "B.st.set.k2.v1", "B.mw.get", "B.st.get",
 		"M.mw.evil", "M.st.evil", "M.mw.destroyed", "M.mw.stolenA",
-		"adm.getbyid.A")
+		"adm.getbyid.A",
+		"tick.7") // one short tick: the compound request (or its successor) runs at a later instant than the session's creation
 }
 
-// compoundOps: A's compound requests of exactly n calls, both APIs.
+// compoundOps: A's compound requests of group n (2: pairs, and pairs followed by a second
+// store.Get; 3: the remaining triples), both APIs.
 func compoundOps(n int) []int {
 	var out []int
 	for i, o := range alphabet {
-		if o.Act == "seq" && len(o.Seq) == n {
+		if o.Act == "seq" && o.Group == n {
 			out = append(out, i)
 		}
 	}
@@ -317,6 +385,31 @@ func rotationOps(thorough bool) []int {
 		l = append(l, "A.mw.get", "A.st.touch", "A.st.set.k1.v1", "A.st.reset")
 	}
 	return names(l...)
+}
+
+// idleOps: requests that override the idle timeout of their own session, surrounded by what
+// shows a wrong lifetime of ANY session: the other user creating / saving a session right
+// after (drawing the pooled object), reads after 7 s (between 5 and 10) and 11 s (between 10
+// and 15), the stolen id (cookie clients drop expired cookies themselves), a GetByID save.
+func idleOps() []int {
+	return names(
+		"A.st.idle5.k1.v1", "A.mw.idle5", "A.st.idle15.k1.v1", "A.mw.idle15",
+		"A.mw.get", "A.st.get", "A.st.touch",
+		"B.mw.set.k1.v2", "B.st.touch",
+		"M.mw.stolenA", "adm.getbyidset.A",
+		"tick.7", "tick.11")
+}
+
+// byIDOps: an administrator working on user A's session through store.GetByID (read, Set+Save,
+// Delete(key)+Save, Destroy, Regenerate+Save, Reset+Save) and store.Delete, between requests of
+// A through both APIs, of B, and of M presenting the ended / the stolen id.
+func byIDOps() []int {
+	return names(
+		"A.mw.set.k1.v1", "A.st.set.k2.v1", "A.mw.get", "A.st.get",
+		"B.mw.set.k1.v2",
+		"adm.getbyid.A", "adm.getbyidset.A", "adm.getbyiddel.A", "adm.getbyiddestroy.A", "adm.getbyidregen.A", "adm.getbyidreset.A",
+		"M.mw.destroyed", "M.mw.stolenA",
+		"tick.7")
 }
 
 func opNames(idx []int) []string {
@@ -394,6 +487,15 @@ func allCfgs() []Cfg {
 const (
 	ctxFresh        = "fresh RequestCtx only"
 	ctxSharedAbsOff = "shared RequestCtx only without AbsoluteTimeout"
+	// ctxDiagonal: fresh RequestCtx with AbsoluteTimeout, shared RequestCtx without. Every request of a
+	// shared-ctx history runs the code a fresh-ctx one runs (the only difference is what the request
+	// buffers held before), so shared/abs-off exposes whatever fresh/abs-off exposes; the absolute
+	// deadline never touches request buffers, so shared/abs-on adds nothing to fresh/abs-on plus
+	// shared/abs-off. (The de-duplicating search keeps all 24 configurations.)
+	ctxDiagonal = "fresh RequestCtx with AbsoluteTimeout + shared RequestCtx without"
+	// ctxSharedNoAbs: only the shared-ctx configurations without AbsoluteTimeout (the request
+	// buffers are the one piece of state the de-duplicating search does not key on)
+	ctxSharedNoAbs = "shared RequestCtx without AbsoluteTimeout only"
 )
 
 // applies reports whether family f enumerates configuration c.
@@ -415,6 +517,10 @@ func (f Family) applies(c Cfg) bool {
 		return c.Ctx == "fresh"
 	case ctxSharedAbsOff:
 		return c.Ctx == "fresh" || !c.Abs
+	case ctxDiagonal:
+		return (c.Ctx == "fresh") == c.Abs
+	case ctxSharedNoAbs:
+		return c.Ctx == "shared" && !c.Abs
 	}
 	return true
 }
